@@ -76,10 +76,10 @@ sys.exit(0 if ok else 1)
 '''
 
 
-def run_harness(path, timeout=120, functions=(), replay_note="", only=None, twin_timeout=60):
+def run_harness(path, timeout=120, functions=(), replay_note="", only=None, twin_timeout=150):
     hs = _harnesses(path)
     if only:
-        hs = [h for h in hs if only in h["name"]]
+        hs = [h for h in hs if only == h["name"] or (only.endswith("*") and h["name"].startswith(only[:-1]))]
     os.makedirs(CX_TMP, exist_ok=True)
     modname = path[:-3].replace("/", ".")
     res = dict(engine="X", functions=list(functions), obligations=len(hs), discharged=0, violations=[], inconclusive=[],
@@ -92,7 +92,7 @@ def run_harness(path, timeout=120, functions=(), replay_note="", only=None, twin
         # twin
         tpath = os.path.join(CX_TMP, "twin_%s_%s.py" % (modname.replace(".", "_"), h["name"]))
         with open(tpath, "w") as fh:
-            fh.write("from %s import *\nfrom %s import %s\n\n\ndef twin(%s) -> bool:\n    \"\"\"\n%s\n    post: not _\n    \"\"\"\n    return %s(%s)\n" % (
+            fh.write("import %s as _m\nglobals().update({k: v for k, v in vars(_m).items() if not k.startswith('__')})\nfrom %s import %s\n\n\ndef twin(%s) -> bool:\n    \"\"\"\n%s\n    post: not _\n    \"\"\"\n    return %s(%s)\n" % (
                 modname, modname, h["name"], h["args"], "\n".join("    " + p for p in h["pres"]), h["name"], ", ".join(h["argnames"])))
         tout, tdt = _run_cx(tpath, twin_timeout)
         tkind, _ = _classify(tout)
